@@ -47,7 +47,7 @@ func TestSmoke(t *testing.T) {
 		if err != nil || st.Err != nil {
 			t.Fatalf("prepare: %v %v", err, st.Err)
 		}
-		rep, err = s.Execute(st, []mysess.Param{{Type: mysess.TypeLong, B: mysess.IntBytes(mysess.TypeLong, 3)}, {Type: mysess.TypeVarString, B: []byte("BOUND-SECRET")}, {Type: mysess.TypeNull, Null: true}, {Type: mysess.TypeLongLong, B: mysess.IntBytes(mysess.TypeLongLong, 1 << 40)}})
+		rep, err = s.Execute(st, []mysess.Param{{Type: mysess.TypeLong, B: mysess.IntBytes(mysess.TypeLong, 3)}, {Type: mysess.TypeVarString, B: []byte("BOUND-SECRET")}, {Type: mysess.TypeNull, Null: true}, {Type: mysess.TypeLongLong, B: mysess.IntBytes(mysess.TypeLongLong, 1<<40)}})
 		if err != nil || rep.Error() != "" {
 			t.Fatalf("execute: %v %s", err, rep.Error())
 		}
